@@ -57,6 +57,7 @@ pub fn run(prop: &str, tier: Tier, seed: i64, replay: Option<&str>) -> i32 {
             builder_stages(&mut ck, false);
         },
         "C12" => {
+            hashorder_stage(&mut ck);
             checksum_stage(&mut ck);
             ck.lens_stage(plans_for(prop, tier));
             let (a, r) = crate::engine_b::spelling_stage(prop, monitors_for(prop), tier);
@@ -162,6 +163,41 @@ fn faults_as_inputs(ck: &mut Check) {
     });
     let n = a.evals;
     ck.add_stage(a, json!({"engine": "B-faults-as-inputs", "tuples": tuples.len(), "faulted_strings": n}));
+}
+
+/// Engine D: merge the report of the hook-enabled binary (run by ./check before this one) and
+/// observe what the production build's random seeding produces.
+fn hashorder_stage(ck: &mut Check) {
+    match std::env::var("C12_HASHORDER") {
+        Ok(path) => {
+            let text = std::fs::read_to_string(&path).unwrap_or_default();
+            let Ok(v) = serde_json::from_str::<Value>(&text) else {
+                println!("MACHINERY: cannot read the hash-order report {path}");
+                std::process::exit(2);
+            };
+            let mut a = Acc::new();
+            a.evals = v["evals"].as_u64().unwrap_or(0);
+            a.nontrivial = a.evals;
+            a.calls = v["calls"].as_u64().unwrap_or(0);
+            for x in v["violations"].as_array().cloned().unwrap_or_default() {
+                let prop = if x["prop"] == "C12" { "C12" } else { "C06" };
+                a.violate(Violation { prop, kind: x["kind"].as_str().unwrap_or("").to_owned(), case: x["case"].clone(), detail: x["detail"].as_str().unwrap_or("").to_owned() });
+            }
+            for s in v["stages"].as_array().cloned().unwrap_or_default() {
+                a.sig(&s.to_string());
+                a.samples.push(json!({"hash_order_stage": s["entries"], "orders": s["distinct_iteration_orders_observed"]}));
+                ck.bounds.push(s.clone());
+                ck.stages.push(s);
+            }
+            ck.total.merge(a);
+        },
+        Err(_) => {
+            println!("MACHINERY: C12 needs the hash-order report of the hook-enabled build (run through ./check)");
+            std::process::exit(2);
+        },
+    }
+    let (a, r) = crate::hashorder::production_orders(ck.tier);
+    ck.add_stage(a, r);
 }
 
 fn shapes_stage(ck: &mut Check) {
@@ -316,6 +352,8 @@ pub fn replay_case(prop: &'static str, case: &Value) -> Option<Vec<Violation>> {
         },
         "quals-bfs" => return crate::xstate::replay(&crate::m_quals::QModel::new(Tier::Thorough, false), case).or_else(|| crate::xstate::replay(&crate::m_quals::QModel::new(Tier::Quick, false), case)),
         "quals-typed-bfs" => return crate::xstate::replay(&crate::m_quals::QModel::new(Tier::Quick, true), case),
+        #[cfg(purl_verif)]
+        "hashorder" => return crate::hashorder::replay(case),
         "spell" => return crate::engine_b::replay(prop, monitors_for(prop), case),
         "pool-pair" => return crate::pools::replay_pair(case),
         "transcript" => {
